@@ -44,6 +44,8 @@ ANCHORS = [
     ("src/easynetwork/lowlevel/api_async/transports/tls.py", "AsyncTLSStreamTransport.send_all_from_iterable"),
     ("src/easynetwork/lowlevel/api_async/transports/tls.py", "AsyncTLSStreamTransport.__write_all_to_ssl_object"),
     ("src/easynetwork/lowlevel/api_async/transports/abc.py", "AsyncStreamWriteTransport.send_all_from_iterable"),
+    ("src/easynetwork/lowlevel/api_async/backend/_asyncio/_flow_control.py", "WriteFlowControl.drain"),
+    ("src/easynetwork/lowlevel/api_async/backend/_asyncio/_flow_control.py", "WriteFlowControl.connection_lost"),
 ]
 RULE = ("chunk lists: every list of <= 3 (thorough: 4) chunks with lengths in {0,1,3} (thorough {0,1,2,5}), distinct byte "
         "values so that reordering/duplication is visible; socket scripts: every sequence of <= 2 (thorough 3) answers over "
@@ -118,6 +120,66 @@ def _deque_drops_empty(value):
     raise runner.TranslateError("unrecognised construction of `buffers`: " + ast.dump(arg)[:120])
 
 
+def _check_sendmsg_loop_shape(fn):
+    """Every top-level statement of send_all_from_iterable that mentions `buffers` must be one the model transcribes:
+    the construction of the deque, `def try_sendmsg` (islice(buffers, SC_IOV_MAX)) and
+    `while buffers: sent, timeout = self._retry(try_sendmsg, timeout); adjust_leftover_buffer(buffers, sent)`.
+    Anything else that reads or edits the deque (pops, filters, reorders) is not modelled: fail closed."""
+    def mentions(node):
+        return any(isinstance(x, ast.Name) and x.id == "buffers" for x in ast.walk(node))
+
+    def is_call_attr(node, attr):
+        return isinstance(node, ast.Call) and isinstance(node.func, ast.Attribute) and node.func.attr == attr
+
+    for st in fn.body:
+        if not mentions(st):
+            continue
+        if isinstance(st, (ast.AnnAssign, ast.Assign)):
+            continue
+        if isinstance(st, ast.FunctionDef) and st.name == "try_sendmsg":
+            calls = [x for x in ast.walk(st) if is_call_attr(x, "sendmsg")]
+            if len(calls) != 1 or not (len(calls[0].args) == 1 and isinstance(calls[0].args[0], ast.Call)
+                                       and ast.unparse(calls[0].args[0].func).endswith("islice")
+                                       and ast.unparse(calls[0].args[0].args[0]) == "buffers"
+                                       and ast.unparse(calls[0].args[0].args[1]).endswith("SC_IOV_MAX")):
+                raise runner.TranslateError("try_sendmsg is not socket.sendmsg(islice(buffers, SC_IOV_MAX))")
+            continue
+        if isinstance(st, ast.While) and isinstance(st.test, ast.Name) and st.test.id == "buffers" and not st.orelse \
+                and len(st.body) == 2 \
+                and isinstance(st.body[0], ast.Assign) and is_call_attr(st.body[0].value, "_retry") \
+                and ast.unparse(st.body[0].targets[0]) in ("(sent, timeout)", "sent, timeout") \
+                and [ast.unparse(a) for a in st.body[0].value.args] == ["try_sendmsg", "timeout"] \
+                and isinstance(st.body[1], ast.Expr) and is_call_attr(st.body[1].value, "adjust_leftover_buffer") \
+                and [ast.unparse(a) for a in st.body[1].value.args] == ["buffers", "sent"]:
+            continue
+        raise runner.TranslateError("send_all_from_iterable touches `buffers` in a statement the model does not transcribe: "
+                                    + ast.unparse(st).split("\n")[0][:100])
+
+
+def drain_order_is_modelled():
+    """WriteFlowControl.drain (C20's anchor, used by the adapter's send): the model (Conc/FlowControl.v wfc_drain) does
+    `if is_closing(): yield` FIRST and only then tests connection_lost.  Fail closed on any other order."""
+    path = os.path.join(runner.REPO, "src/easynetwork/lowlevel/api_async/backend/_asyncio/_flow_control.py")
+    try:
+        tree = ast.parse(open(path).read())
+    except SyntaxError as exc:
+        raise runner.TranslateError(f"_flow_control.py does not parse: {exc}")
+    for cls in tree.body:
+        if isinstance(cls, ast.ClassDef) and cls.name == "WriteFlowControl":
+            for fn in cls.body:
+                if isinstance(fn, ast.AsyncFunctionDef) and fn.name == "drain":
+                    body = [st for st in fn.body if not (isinstance(st, ast.Expr) and isinstance(st.value, ast.Constant))]
+                    tests = [ast.unparse(st.test) for st in body[:3] if isinstance(st, ast.If)]
+                    if len(tests) < 3 or "is_closing" not in tests[0] or "connection_lost" not in tests[1] \
+                            or "write_paused" not in tests[2]:
+                        raise runner.TranslateError("WriteFlowControl.drain does not test is_closing (yield), connection_lost, "
+                                                    f"write_paused in this order: {tests}")
+                    if not any(isinstance(x, ast.Await) for x in ast.walk(body[0])):
+                        raise runner.TranslateError("WriteFlowControl.drain: the is_closing branch does not yield to the loop")
+                    return True
+    raise runner.TranslateError("WriteFlowControl.drain not found")
+
+
 def drops_empty_views():
     path = os.path.join(runner.REPO, "src/easynetwork/lowlevel/api_sync/transports/socket.py")
     try:
@@ -136,6 +198,7 @@ def drops_empty_views():
                             found.append(n.value)
                     if len(found) != 1:
                         raise runner.TranslateError(f"expected exactly one assignment to `buffers`, found {len(found)}")
+                    _check_sendmsg_loop_shape(fn)
                     return _deque_drops_empty(found[0])
     raise runner.TranslateError("SocketStreamTransport.send_all_from_iterable not found")
 
@@ -169,6 +232,7 @@ def adapter_guards_empty_iterable():
 def params():
     flag = drops_empty_views()
     guard = adapter_guards_empty_iterable()
+    drain_order_is_modelled()
     return ("(* True iff SocketStreamTransport.send_all_from_iterable drops empty views when building its deque "
             "(the F2 repair). *)\n"
             f"Definition sendmsg_drops_empty_views : bool := {'true' if flag else 'false'}.\n"
@@ -178,12 +242,24 @@ def params():
 
 # ---------------------------------------------------------------------------------------------------------------
 # running the implementation
-def _typed(chunks):
-    """bytes / bytearray / memoryview, determined by the case itself"""
+def _wide_view(c):
+    """A view of the same bytes with the largest item size that divides the length ('d' 8, 'I' 4, 'H' 2), else bytes."""
+    c = bytes(c)
+    for fmt, size in (("d", 8), ("I", 4), ("H", 2)):
+        if c and len(c) % size == 0:
+            return memoryview(c).cast(fmt)
+    return c
+
+
+def _typed(chunks, wide=True):
+    """bytes / bytearray / memoryview / memoryview with itemsize > 1, determined by the case itself (every buffer the
+    API accepts is a byte string to the model: the cast to bytes is part of the input typing).
+    wide=False (asyncio transports): CPython's asyncio write()/writelines() count ELEMENTS of such a view against the
+    BYTES the kernel took (IndexError / wrong slice); the adapter forwards chunks uncast -- side observation, see notes."""
     out = []
     for i, c in enumerate(chunks):
-        k = (i + len(chunks)) % 3
-        out.append(c if k == 0 else bytearray(c) if k == 1 else memoryview(c))
+        k = (i + len(chunks)) % 4
+        out.append(c if k == 0 else bytearray(c) if k == 1 else memoryview(c) if (k == 2 or not wide) else _wide_view(c))
     return out
 
 
@@ -246,7 +322,8 @@ def run_sync(inp):
                 if impl == 2:
                     target.send_packet(_typed(chunks), timeout=None if T is None else iosim.secs(T))
                 elif path == 0:
-                    transport.send_all(b"".join(chunks), iosim.secs(T))
+                    data = b"".join(chunks)
+                    transport.send_all(_wide_view(data) if (len(chunks) + len(data)) % 2 else data, iosim.secs(T))
                 else:
                     transport.send_all_from_iterable(iter(_typed(chunks)), iosim.secs(T))
             except BaseException as exc:  # noqa: BLE001 - every outcome is an observable
@@ -306,6 +383,18 @@ def oracle(inp):
         want = b"".join(realio.chunk_bytes(c if isinstance(c, bytes) else tuple(c)) for _k, chunks, _n in inp[8] for c in chunks)
         if out[0] in (8, 9):
             return "asyncio adapter: send does not terminate"
+        refused = [snd for snd in inp[8] if snd[2] < 0]
+        if refused:
+            good = b"".join(realio.chunk_bytes(c if isinstance(c, bytes) else tuple(c))
+                            for _k, chunks, n in inp[8] if n >= 0 for c in chunks)
+            if out[0] == 0:
+                return ("asyncio adapter: the send returned normally although the kernel refused the write (ECONNRESET) and "
+                        "asyncio dropped the data: bytes lost without any error")
+            if out[0] != 2:
+                return f"asyncio adapter: unexpected exception class (code {out[0]}) after a refused write"
+            if out[1] != good:
+                return f"asyncio adapter: the peer read {out[1]!r} instead of {good!r}"
+            return None
         if out[0] != 0:
             return f"asyncio adapter: unexpected exception class (code {out[0]})"
         if out[1] != want:
@@ -398,7 +487,7 @@ def mk_chunks(lengths):
     return out
 
 
-ANS = {"s1": [0, 1, 0], "s2": [0, 2, 0], "all": [0, 99, 0], "s0": [0, 0, 0], "eagain": [1, 0, 0], "eintr": [2, 0, 0],
+ANS = {"s1": [0, 1, 0], "s2": [0, 2, 0], "s3": [0, 3, 0], "s5": [0, 5, 0], "all": [0, 99, 0], "s0": [0, 0, 0], "eagain": [1, 0, 0], "eintr": [2, 0, 0],
        "reset": [5, 0, 0], "wantread": [3, 0, 0], "syscall": [4, 0, 0]}
 
 
@@ -467,6 +556,26 @@ def cases(tier, rng, escalate):
             path, iov, impl = rng.choice([(0, 1024, 0), (2, 1024, 0), (1, 0, 0), (1, -1, 0), (2, 1024, 2), (1, 1024, 2), (1, 1, 2)])
             yield _case(path, iov, lengths, rng.choice(TS), rng.choice(RIS), [ANS[a] for a in s], _rand_sel(rng), impl,
                         ["exh-join"])
+    # send_all on buffers whose itemsize is > 1 (memoryview 'H' / 'I' / 'd' of the same bytes) with partial writes that are
+    # not aligned on the item size; same through the join path and the SSL transport
+    for n in (2, 4, 6, 8, 12, 16, 24):
+        for k in range(0, 3):
+            for sc in itertools.product(["s1", "s2", "s3", "s5", "eagain"], repeat=k):
+                for nch in (1, 2):
+                    lengths = [n] if nch == 1 else [n // 2, n - n // 2]
+                    path, impl = rng.choice([(0, 0), (0, 0), (0, 1), (2, 0), (2, 1), (1, 0)])
+                    yield _case(path, rng.choice([1, 2, 1024]), lengths, rng.choice([8, None]), rng.choice(RIS), [ANS[a] for a in sc],
+                                _rand_sel(rng), impl, ["wide-items"])
+    # runs of empty chunks around the SC_IOV_MAX window (sendmsg passes only the first SC_IOV_MAX views): at the head of
+    # the packet and right after a chunk boundary, followed by data, for every SC_IOV_MAX the cases use incl. the real 1024
+    for iov in (1, 2, 3, 1024):
+        for run in (max(iov - 1, 1), iov, iov + 1, 2 * iov + 1):
+            if iov == 1024 and run > iov + 1 and not thorough:
+                continue
+            for head in ([], [2]):
+                for sc in ([], ["s1"], ["eagain", "s1"]):
+                    yield _case(1, iov, head + [0] * run + [3] + ([0] if run % 2 else []), rng.choice([3, None]), rng.choice(RIS),
+                                [ANS[a] for a in sc], _rand_sel(rng), rng.choice([0, 2]), ["iov-window"])
     # SSL socket object
     sslscripts = [list(s) for k in range(0, 3) for s in itertools.product(sslalpha, repeat=k)]
     for lengths in lists:
@@ -575,7 +684,15 @@ def cases(tier, rng, escalate):
         for snd in sends:
             snd[1] = [bytes((b + i + 7 * j) % 251 + 1 for i in range(len(c))) for j, c in enumerate(snd[1])]
             b += 31
+        if rng.random() < 0.3:
+            # the last write is refused by the kernel (fatal error inside write()/writelines()): everything before it
+            # must have been flushed, otherwise asyncio only buffers and the error cannot happen inside this call
+            sends = [snd for snd in sends if sum(len(c) for c in snd[1]) > 0]     # every earlier send reaches the socket
+            for snd in sends:
+                snd[2] = 50
+            sends.append([rng.choice([0, 1]), [bytes([200 + len(sends)]) * rng.randint(1, 3)], -1])
         yield dict(input=[10, 0, [], [], [], [], [], 12, sends], tags=["asyncio-adapter-multi", "path10", "impl12",
+                   "write-refused" if sends[-1][2] < 0 else "writes-accepted",
                    "with-empty-chunk" if any(len(c) == 0 for snd in sends for c in snd[1]) else "no-empty"], nontrivial=True)
     # random volume
     n_random = 12000 if thorough else 2500
